@@ -17,7 +17,7 @@ mod gvw;
 #[path = "c11/marsh.rs"]
 mod marsh;
 use derived::*;
-use gluon::vm::api::{self, de, ser::Ser, FunctionRef, Hole, OpaqueValue, OwnedFunction, Pushable};
+use gluon::vm::api::{self, de, ser::Ser, FunctionRef, Getable, Hole, OpaqueValue, OwnedFunction, Pushable};
 use gluon::{RootedThread, Thread, ThreadExt};
 use gv::rng::Rng;
 use gv::{Args, Out};
@@ -881,6 +881,359 @@ let sh : Shape = Rect { w = 3, h = 4 }
     req!(FunctionRef<fn(f64) -> f64>, "Float -> Float".into(), "".into(), |_| "fn".into());
 }
 
+
+/// `std.map.Map String V` values as gluon code builds them (any tree shape), held opaquely.
+type OM<V> = OpaqueValue<RootedThread, BTreeMap<String, V>>;
+
+const MAP_MOD: &str = r#"
+let map @ { Map } = import! std.map
+let { Semigroup } = import! std.semigroup
+let string @ { ? } = import! std.string
+let app l r : Map String a -> Map String a -> Map String a =
+    (map.semigroup ?string.ord).append l r
+let idm m : Map String a -> Map String a = m
+{ app, idm }
+"#;
+
+fn gen_key(r: &mut Rng) -> String {
+    match r.below(10) {
+        0 => <String as Marsh>::gen(r),
+        1 => String::new(),
+        _ => {
+            let l = r.range(1, 2);
+            (0..l).map(|_| *r.pick(&['a', 'b', 'c', 'd', 'm', 'x', 'z', 'é', '0'])).collect()
+        }
+    }
+}
+
+/// Maps that gluon code builds or modifies before the host reads them: `std.map.insert` in random
+/// orders (colliding keys, 0..50 entries; descending = left spines), `append` of two maps, inserts into
+/// a map Rust pushed.  The host's `BTreeMap` must hold exactly the entries gluon code sees in the
+/// tree (observer) and, for insert-only builds, the entries inserted (last write wins); the real tree
+/// shape also goes to the Lean model's `get`.
+fn run_gluon_maps<V>(cx: &mut Cx)
+where
+    V: Marsh,
+    V::Type: Sized,
+    V: for<'vm2> Pushable<'vm2>,
+{
+    let name = format!("gluon-map<{}>", type_name::<V>());
+    if let Some((n, _)) = &cx.only {
+        if *n != name {
+            return;
+        }
+    }
+    let vm = cx.vm.clone();
+    let tcode = <BTreeMap<String, V>>::tcode();
+    macro_rules! setup {
+        ($e:expr, $what:expr) => {
+            match gv::catch(|| $e) {
+                Ok(Ok(x)) => x,
+                Ok(Err(e)) => {
+                    cx.out.oracle_fail(&format!("setup:gluon-map:{}", $what), &format!("{}: {}", name, norm_err(&e.to_string())), json!({"type": name, "index": 0, "op": "gluon-map"}));
+                    return;
+                }
+                Err(p) => {
+                    cx.out.oracle_fail(&format!("setup:gluon-map:{}", $what), &format!("{}: panic {}", name, norm_err(&p)), json!({"type": name, "index": 0, "op": "gluon-map"}));
+                    return;
+                }
+            }
+        };
+    }
+    let mut ins: OwnedFunction<fn(String, V, OM<V>) -> OM<V>> = setup!(vm.get_global("std.map.insert_string"), "insert");
+    let empty: OM<V> = setup!(vm.get_global("std.map.empty"), "empty");
+    let mut app: OwnedFunction<fn(OM<V>, OM<V>) -> OM<V>> = setup!(vm.get_global("c11m.app"), "append");
+    let mut rd: OwnedFunction<fn(OM<V>) -> BTreeMap<String, V>> = setup!(vm.get_global("c11m.idm"), "read");
+    let mut lift: OwnedFunction<fn(BTreeMap<String, V>) -> OM<V>> = setup!(vm.get_global("c11m.idm"), "lift");
+    let mut defs = vec![];
+    let obs_expr = <BTreeMap<String, V>>::obs_fn(&mut defs);
+    let obs_src = format!("{}\n{}\nlet f : {} -> String = {}\nf\n", HEADER, defs.join("\n"), <BTreeMap<String, V>>::gtype(), obs_expr);
+    let mut observer: OwnedFunction<fn(OM<V>) -> String> =
+        setup!(vm.run_expr::<OwnedFunction<fn(OM<V>) -> String>>(&format!("c11_mobs_{}", salt(&name)), &obs_src).map(|x| x.0), "observer");
+
+    let mut r = Rng::new(cx.seed, salt(&name));
+    let n_cases = if cx.n_random > 100 { 300 } else { 60 };
+    let sizes = [0usize, 1, 2, 3, 4, 5, 7, 9, 13, 21, 34, 50];
+    for i in 0..n_cases {
+        // generate always (determinism), run only the selected index on replay
+        let n = sizes[r.below(sizes.len() as u64) as usize];
+        let mode = r.below(6);
+        let mut entries: Vec<(String, V)> = (0..n).map(|_| (gen_key(&mut r), V::gen(&mut r))).collect();
+        let extra: Vec<(String, V)> = (0..r.below(8) as usize).map(|_| (gen_key(&mut r), V::gen(&mut r))).collect();
+        if !selected(cx, &name, i) {
+            continue;
+        }
+        let how = match mode {
+            0 | 1 => "insert-random-order",
+            2 => {
+                entries.sort_by(|a, b| b.0.cmp(&a.0));
+                "insert-descending"
+            }
+            3 => {
+                entries.sort_by(|a, b| a.0.cmp(&b.0));
+                "insert-ascending"
+            }
+            4 => "append",
+            _ => "insert-into-pushed",
+        };
+        let replay = json!({"type": name, "index": i, "op": "gluon-map", "how": how, "entries": entries.len()});
+        // build in gluon
+        let build = |ins: &mut OwnedFunction<fn(String, V, OM<V>) -> OM<V>>, start: OM<V>, es: &[(String, V)]| -> Result<OM<V>, String> {
+            let mut m = start;
+            for (k, v) in es {
+                m = match gv::catch(|| ins.call(k.clone(), v.clone(), m.clone())) {
+                    Ok(Ok(m2)) => m2,
+                    Ok(Err(e)) => return Err(norm_err(&e.to_string())),
+                    Err(p) => return Err(format!("panic {}", norm_err(&p))),
+                };
+            }
+            Ok(m)
+        };
+        let mut expected: Option<BTreeMap<String, V>> = None;
+        let built: Result<OM<V>, String> = match how {
+            "append" => {
+                let a = build(&mut ins, empty.clone(), &entries);
+                let b = build(&mut ins, empty.clone(), &extra);
+                match (a, b) {
+                    (Ok(a), Ok(b)) => match gv::catch(|| app.call(a, b)) {
+                        Ok(Ok(m)) => Ok(m),
+                        Ok(Err(e)) => Err(norm_err(&e.to_string())),
+                        Err(p) => Err(format!("panic {}", norm_err(&p))),
+                    },
+                    (Err(e), _) | (_, Err(e)) => Err(e),
+                }
+            }
+            "insert-into-pushed" => {
+                let mut base = BTreeMap::new();
+                for (k, v) in &entries {
+                    base.insert(k.clone(), v.clone());
+                }
+                let mut exp = base.clone();
+                for (k, v) in &extra {
+                    exp.insert(k.clone(), v.clone());
+                }
+                expected = Some(exp);
+                match gv::catch(|| lift.call(base)) {
+                    Ok(Ok(m)) => build(&mut ins, m, &extra),
+                    Ok(Err(e)) => Err(norm_err(&e.to_string())),
+                    Err(p) => Err(format!("panic {}", norm_err(&p))),
+                }
+            }
+            _ => {
+                let mut exp = BTreeMap::new();
+                for (k, v) in &entries {
+                    exp.insert(k.clone(), v.clone());
+                }
+                expected = Some(exp);
+                build(&mut ins, empty.clone(), &entries)
+            }
+        };
+        let m = match built {
+            Ok(m) => m,
+            Err(e) => {
+                cx.out.oracle_fail("gluon-map:build-error", &format!("{} ({}): building the map in gluon failed: {}", name, how, e), replay);
+                continue;
+            }
+        };
+        // what the tree really is, and what the host reads from it
+        let g = walk(&vm, m.get_variant());
+        let direct = gv::catch(|| <BTreeMap<String, V>>::from_value(&vm, m.get_variant()));
+        let payload = match &direct {
+            Ok(y) => y.val(),
+            Err(_) => "panic".to_string(),
+        };
+        cx.out.count(&format!("gluon-map:{}", how));
+        cx.out.class(format!("gmap|{}|{}|{}", name, how, entries.len().min(9)));
+        if cx.verbose {
+            println!("how     {}\ntree    {}\nread    {}", how, g.sexp(), payload);
+        }
+        cx.out.case(&format!("getg {} {}", tcode, g.sexp()), &payload);
+        let via_fn = gv::catch(|| rd.call(m.clone()));
+        let seen = gv::catch(|| observer.call(m.clone()));
+        match (&direct, &via_fn) {
+            (Ok(d), Ok(Ok(f))) => {
+                if !d.same(f) {
+                    cx.out.oracle_fail("gluon-map:fn-vs-direct", &format!("{} ({}): a function result and from_value disagree", name, how), replay.clone());
+                }
+                if let Some(exp) = &expected {
+                    if !d.same(exp) {
+                        cx.out.oracle_fail(
+                            "gluon-map:differs",
+                            &format!("{} ({}): the host reads {} entries of a gluon-built map that holds {}: read {} expected {}", name, how, d.len(), exp.len(), clip(&d.val()), clip(&exp.val())),
+                            replay.clone(),
+                        );
+                    }
+                }
+                match &seen {
+                    Ok(Ok(sv)) => {
+                        if *sv != d.obs() {
+                            cx.out.oracle_fail(
+                                "gluon-map:host-vs-gluon-view",
+                                &format!("{} ({}): gluon code sees {:?} in the tree, the host reads {:?}", name, how, clip(sv), clip(&d.obs())),
+                                replay.clone(),
+                            );
+                        }
+                    }
+                    _ => cx.out.oracle_fail("gluon-map:observer-error", &format!("{} ({}): the gluon observer failed", name, how), replay.clone()),
+                }
+            }
+            _ => cx.out.oracle_fail("gluon-map:read-panic", &format!("{} ({}): reading the map panicked or failed", name, how), replay.clone()),
+        }
+    }
+}
+
+/// `std.json.Value`'s `Object` shares `from_gluon_map` (api/json.rs:136).
+fn run_json_maps(cx: &mut Cx) {
+    let name = "gluon-map<json>".to_string();
+    if let Some((n, _)) = &cx.only {
+        if *n != name {
+            return;
+        }
+    }
+    let vm = cx.vm.clone();
+    type JM = OpaqueValue<RootedThread, BTreeMap<String, serde_json::Value>>;
+    let setup = (|| -> gluon::vm::Result<_> {
+        vm.run_expr::<OpaqueValue<&Thread, Hole>>("c11_json_pre", "let _ = import! std.json\n()").map_err(|e| gluon::vm::Error::Message(e.to_string()))?;
+        let ins: OwnedFunction<fn(String, serde_json::Value, JM) -> JM> = vm.get_global("std.map.insert_string")?;
+        let empty: JM = vm.get_global("std.map.empty")?;
+        let (obj, _) = vm
+            .run_expr::<OwnedFunction<fn(JM) -> serde_json::Value>>("c11_json_obj", "let { Value } = import! std.json\n\\m -> Object m")
+            .map_err(|e| gluon::vm::Error::Message(e.to_string()))?;
+        Ok((ins, empty, obj))
+    })();
+    let (mut ins, empty, mut obj) = match setup {
+        Ok(x) => x,
+        Err(e) => {
+            cx.out.oracle_fail("setup:gluon-map:json", &norm_err(&e.to_string()), json!({"type": name, "index": 0, "op": "gluon-map"}));
+            return;
+        }
+    };
+    let mut r = Rng::new(cx.seed, salt(&name));
+    for i in 0..(if cx.n_random > 100 { 100 } else { 30 }) {
+        let n = r.range(0, 20) as usize;
+        let entries: Vec<(String, i64)> = (0..n).map(|_| (gen_key(&mut r), r.range(-5, 5))).collect();
+        if !selected(cx, &name, i) {
+            continue;
+        }
+        let mut exp = serde_json::Map::new();
+        let mut m = empty.clone();
+        let mut ok = true;
+        for (k, v) in &entries {
+            exp.insert(k.clone(), serde_json::Value::from(*v));
+            match gv::catch(|| ins.call(k.clone(), serde_json::Value::from(*v), m.clone())) {
+                Ok(Ok(m2)) => m = m2,
+                _ => {
+                    ok = false;
+                    break;
+                }
+            }
+        }
+        let replay = json!({"type": name, "index": i, "op": "gluon-map", "how": "json-object"});
+        let got = if ok { gv::catch(|| obj.call(m.clone())) } else { Err("build".into()) };
+        cx.out.count("gluon-map:json-object");
+        match got {
+            Ok(Ok(v)) => {
+                if v != serde_json::Value::Object(exp.clone()) {
+                    cx.out.oracle_fail("gluon-map:differs", &format!("std.json Object built in gluon is received as {} (expected {})", clip(&v.to_string()), clip(&serde_json::Value::Object(exp).to_string())), replay);
+                }
+            }
+            _ => cx.out.oracle_fail("gluon-map:read-panic", "reading a gluon-built std.json Object failed", replay),
+        }
+    }
+}
+
+/// Arrays gluon code builds with `array.append` (the representation comes from the first array,
+/// possibly an empty one).
+fn run_gluon_arrays<T>(cx: &mut Cx)
+where
+    T: Marsh,
+    T::Type: Sized,
+{
+    let name = format!("gluon-array<{}>", type_name::<T>());
+    if let Some((n, _)) = &cx.only {
+        if *n != name {
+            return;
+        }
+    }
+    let vm = cx.vm.clone();
+    let src = format!("let f : {t} -> {t} -> {t} = \\a b -> (import! std.array.prim).append a b\nf", t = <Vec<T>>::gtype());
+    let mut f = match vm.run_expr::<OwnedFunction<fn(Vec<T>, Vec<T>) -> Vec<T>>>(&format!("c11_arr_{}", salt(&name)), &format!("{}\n{}", HEADER, src)) {
+        Ok((f, _)) => f,
+        Err(e) => {
+            cx.out.oracle_fail("setup:gluon-array", &format!("{}: {}", name, norm_err(&e.to_string())), json!({"type": name, "index": 0, "op": "gluon-array"}));
+            return;
+        }
+    };
+    let mut r = Rng::new(cx.seed, salt(&name));
+    for i in 0..(if cx.n_random > 100 { 120 } else { 24 }) {
+        let mut a = <Vec<T>>::gen(&mut r);
+        let mut b = <Vec<T>>::gen(&mut r);
+        match i % 4 {
+            0 => a.clear(),
+            1 => b.clear(),
+            _ => {}
+        }
+        if !selected(cx, &name, i) {
+            continue;
+        }
+        let mut want = a.clone();
+        want.extend(b.iter().cloned());
+        let replay = json!({"type": name, "index": i, "op": "gluon-array"});
+        cx.out.count("gluon-array:append");
+        cx.out.class(format!("garr|{}|{}|{}", name, a.is_empty(), b.is_empty()));
+        match gv::catch(|| f.call(a.clone(), b.clone())) {
+            Ok(Ok(y)) => {
+                if !y.same(&want) {
+                    cx.out.oracle_fail("gluon-array:differs", &format!("{}: array.append of {} and {} is received as {}", name, clip(&a.val()), clip(&b.val()), clip(&y.val())), replay);
+                }
+            }
+            Ok(Err(e)) => cx.out.oracle_fail("gluon-array:error", &format!("{}: {}", name, norm_err(&e.to_string())), replay),
+            Err(p) => cx.out.oracle_fail("gluon-array:panic", &format!("{}: {}", name, norm_err(&p)), replay),
+        }
+    }
+}
+
+/// Records whose fields gluon code writes in another order than the Rust struct declares them:
+/// either the typechecker refuses the expression or the struct is read correctly (by name).
+fn run_record_orders(cx: &mut Cx) {
+    if cx.only.is_some() {
+        return;
+    }
+    let vm = cx.vm.clone();
+    let want = Point { x: 4, y: 2.5 };
+    for (k, src) in ["{ x = 4, y = 2.5 }", "{ y = 2.5, x = 4 }", "let r = { y = 2.5, x = 4 }\nr", "let f x y = { y, x }\nf 4 2.5", "let r = { y = 2.5, x = 4, z = 1 }\n{ x = r.x, y = r.y }"].iter().enumerate() {
+        let res = gv::catch(|| vm.run_expr::<Point>("c11_rec_order", src));
+        let outcome = match &res {
+            Ok(Ok((p, _))) => {
+                if p.same(&want) {
+                    "ok"
+                } else {
+                    "wrong-value"
+                }
+            }
+            Ok(Err(_)) => "refused",
+            Err(_) => "panic",
+        };
+        cx.out.count(&format!("record-order:{}", outcome));
+        cx.out.class(format!("recorder|{}|{}", k, outcome));
+        if outcome == "wrong-value" || outcome == "panic" || (k == 0 && outcome != "ok") {
+            cx.out.oracle_fail(&format!("record-order:{}", outcome), &format!("run_expr::<Point>({:?}): {}", src, outcome), json!({"op": "record-order", "src": src}));
+        }
+    }
+    let src = "{ opt = Some 7b, pos = { y = 0.5, x = 1 }, alpha = [\"a\"], zeta = \"z\" }";
+    let want = Rec { zeta: "z".into(), alpha: vec!["a".into()], pos: Point { x: 1, y: 0.5 }, opt: Some(7) };
+    let res = gv::catch(|| vm.run_expr::<Rec>("c11_rec_order2", src));
+    let outcome = match &res {
+        Ok(Ok((p, _))) => if p.same(&want) { "ok" } else { "wrong-value" },
+        Ok(Err(_)) => "refused",
+        Err(_) => "panic",
+    };
+    cx.out.count(&format!("record-order:{}", outcome));
+    if outcome == "wrong-value" || outcome == "panic" {
+        cx.out.oracle_fail(&format!("record-order:{}", outcome), &format!("run_expr::<Rec>({:?}): {}", src, outcome), json!({"op": "record-order", "src": src}));
+    }
+}
+
 /// The types that also go through the serde bridge (everything except `Ordering`, which has no
 /// serde impls).
 macro_rules! serde_types {
@@ -949,6 +1302,17 @@ fn child_de() {
 fn child(mode: &str) {
     if mode == "de" {
         return child_de();
+    }
+    if mode == "gluon-src" {
+        use std::io::Read;
+        let mut src = String::new();
+        std::io::stdin().read_to_string(&mut src).unwrap();
+        let vm = gv::vm::new_vm();
+        match vm.load_script("probe", &src) {
+            Ok(()) => println!("ok"),
+            Err(e) => println!("{}", e),
+        }
+        return;
     }
     let vm = gv::vm::new_vm();
     match mode {
@@ -1052,6 +1416,31 @@ fn main() {
     conv!(i64 => i16, i64 => i32, i64 => u16, i64 => u32, i64 => u64, i64 => usize, i64 => isize, i64 => char,
           u64 => i64, u64 => i32, u32 => i16, usize => u16, isize => u32, i32 => char, u32 => char,
           f64 => f32, f32 => f64, char => u32, char => i16, i16 => u64, i32 => u64);
+    // values whose shape only gluon code produces
+    let t_maps = std::time::Instant::now();
+    if let Err(e) = cx.vm.load_script("c11m", MAP_MOD) {
+        if std::env::var("C11_DEBUG").is_ok() { eprintln!("{}", e); }
+        cx.out.oracle_fail("setup:gluon-map:module", &norm_err(&e.to_string()), json!({"op": "gluon-map"}));
+    } else {
+        run_gluon_maps::<i32>(&mut cx);
+        run_gluon_maps::<Vec<u8>>(&mut cx);
+        run_gluon_maps::<Option<String>>(&mut cx);
+        run_gluon_maps::<(f32, Option<String>)>(&mut cx);
+        run_gluon_maps::<Point>(&mut cx);
+        run_gluon_maps::<Shape>(&mut cx);
+        run_gluon_maps::<BTreeMap<String, i32>>(&mut cx);
+        run_json_maps(&mut cx);
+    }
+    run_gluon_arrays::<u8>(&mut cx);
+    run_gluon_arrays::<i64>(&mut cx);
+    run_gluon_arrays::<f64>(&mut cx);
+    run_gluon_arrays::<String>(&mut cx);
+    run_gluon_arrays::<Option<i16>>(&mut cx);
+    run_gluon_arrays::<Vec<u8>>(&mut cx);
+    run_gluon_arrays::<()>(&mut cx);
+    run_gluon_arrays::<(i32, String)>(&mut cx);
+    run_record_orders(&mut cx);
+    if std::env::var("C11_DEBUG").is_ok() { eprintln!("gluon-built section {:?}", t_maps.elapsed()); }
     run_globals(&mut cx);
     run_children(&mut cx);
     cx.out.stats.insert("types".into(), serde_json::Value::from(68u64));
